@@ -6,6 +6,10 @@ mod common;
 mod c01;
 mod c02;
 mod c03;
+mod c04;
+mod c05;
+mod spline;
+mod c06;
 mod c07;
 mod c08;
 mod c09;
@@ -28,6 +32,9 @@ fn build(id: &str, thorough: bool, seed: u64) -> Option<Check> {
         "C02" => c02::check(thorough, seed),
         "C03" => c03::check_c03(thorough, seed),
         "C16" => c03::check_c16(thorough, seed),
+        "C04" => c04::check(thorough, seed),
+        "C05" => c05::check(thorough, seed),
+        "C06" => c06::check(thorough, seed),
         "C07" => c07::check(thorough, seed),
         "C08" => c08::check(thorough, seed),
         "C09" => c09::check(thorough, seed),
